@@ -31,6 +31,8 @@ class SQLiteForeignKey(dbschema.ForeignKey):
 class SQLiteSchema(dbschema.DBSchema):
     dialect = 'SQLite'
     named_foreign_keys = False
+    case_insensitive_names = True
+    case_insensitive_table_names = True
     fk_class = SQLiteForeignKey
 
 def make_overriden_string_func(sqlop):
